@@ -107,6 +107,7 @@ func (s *lfsServer) capture(r *http.Request, body []byte, kind string) {
 			h[k] = strings.Join(v, " || ")
 		}
 	}
+	h["~escaped-path"] = r.URL.EscapedPath()
 	b := string(body)
 	if kind == "storage-put" {
 		b = fmt.Sprintf("<%d bytes sha256:%s>", len(body), sha(body))
@@ -463,6 +464,7 @@ func (s *lfsServer) handle(w http.ResponseWriter, r *http.Request) {
 		}
 		jsonOut(200, out)
 	default:
+		s.capture(r, body, "unknown")
 		w.WriteHeader(404)
 	}
 }
